@@ -641,6 +641,14 @@ def judge(ctx, p, rng, dirpath):
                     res.count("no_room_for_an_earlier_include")
                     continue
                 res.count("judged_after_an_earlier_include")
+            if rng.random() < 0.3:
+                # the last line of a resource need not end in a line break
+                # (every file that holds a culprit, or every file)
+                hold = [rel for rel, fl in layout.files.items()
+                        if any(isinstance(l, Marked) for l in fl)]
+                layout.unterminated = set(
+                    hold if rng.random() < 0.7 else layout.files)
+                res.count("judged_with_unterminated_last_line")
             res.evaluations += 1
             shutil.rmtree(dirpath, ignore_errors=True)
             main = layout.write(dirpath)
